@@ -196,5 +196,72 @@ func TestVerif_C11(t *testing.T) {
 		}
 		srv.Close()
 	}
+	vfC11Connection(rec)
 	rec.Sample(map[string]any{"grid": "6 squash spellings x 6 credentials (incl. AUTH_NONE) x 4x4 sattr ids x 8 procedures", "cases": n})
+}
+
+// vfC11Connection: the same rule on ONE connection of the real connection loop that carries calls of
+// several identities in turn (root first, then ordinary users, and the other way round): every call
+// is judged by its own credential, not by one seen earlier on the connection.
+func vfC11Connection(rec *evid.Rec) {
+	type cr struct{ uid, gid uint32 }
+	for oi, order := range [][]cr{{{0, 0}, {1000, 1000}, {2000, 2000}, {0, 0}, {1000, 0}}, {{1000, 1000}, {0, 0}, {2000, 2000}, {1000, 1000}}} {
+		for _, squash := range []string{"none", "root"} {
+			fs := refs.New()
+			fs.PlantDir("/d", 0777, 0, 0)
+			fs.PlantFile("/d/victim", []byte("x"), 0666, 77, 88)
+			srv, err := vfNewSrv(fs, ExportOptions{Squash: squash, AttrCacheTimeout: 1})
+			if err != nil {
+				rec.Infra(err.Error())
+				return
+			}
+			c0 := srv.client()
+			root, _ := c0.mnt("/")
+			l, _ := c0.lookup(root, "d")
+			lv, _ := c0.lookup(vfFH(l.FH), "victim")
+			if l == nil || l.Status != 0 || lv == nil || lv.Status != 0 {
+				rec.Infra("lookup")
+				srv.Close()
+				return
+			}
+			dh, vh := vfFH(l.FH), vfFH(lv.FH)
+			p := srv.pipe("127.0.0.1", 660)
+			for i, k := range order {
+				euid, egid, _ := vfSquash(squash, k.uid, k.gid, nil)
+				cred := xdrw.AuthSys(uint32(i), "h", k.uid, k.gid, nil)
+				name := fmt.Sprintf("n%d", i)
+				sa := xdrw.Sattr3{UID: xdrw.U32p(4242), GID: xdrw.U32p(4243)}
+				lo := fs.LogLen()
+				rec.Eval(2)
+				if _, _, err := p.call(vfProgNFS, 3, 9, cred, xdrw.ArgMkdir(dh, name, sa)); err != nil {
+					rec.Inconclusive(1)
+					break
+				}
+				if _, _, err := p.call(vfProgNFS, 3, 2, cred, xdrw.ArgSetattr(vh, sa, false, 0, 0)); err != nil {
+					rec.Inconclusive(1)
+					break
+				}
+				desc := fmt.Sprintf("order %d squash=%s call %d with AUTH_SYS %d:%d (effective %d:%d) after %v on the same connection", oi, squash, i, k.uid, k.gid, euid, egid, order[:i])
+				for _, op := range fs.LogSlice(lo, fs.LogLen()) {
+					if (op.Name == "Chown" || op.Name == "Lchown") && euid != 0 && (op.UID != int(euid) && op.UID != -1 || op.GID != int(egid) && op.GID != -1) {
+						rec.Violate("C11/connection/non-root-assigned-foreign-owner", fmt.Sprintf("%s: backend %s(%s,%d,%d)", desc, op.Name, op.Path, op.UID, op.GID), desc)
+					}
+				}
+				wantU, wantG := euid, egid
+				if euid == 0 {
+					wantU, wantG = 4242, 4243
+				}
+				if e, ok := fs.Peek("/d/" + name); ok && (!e.OwnerSet || e.Uid != int(wantU) || e.Gid != int(wantG)) {
+					rec.Violate("C11/connection/new-object-owner-not-caller", fmt.Sprintf("%s: MKDIR left owner %d:%d, want %d:%d", desc, e.Uid, e.Gid, wantU, wantG), desc)
+				}
+				if e, ok := fs.Peek("/d/victim"); ok && euid != 0 && (e.Uid == 4242 || e.Gid == 4243) {
+					rec.Violate("C11/connection/setattr-ids-not-ignored-for-non-root", fmt.Sprintf("%s: SETATTR made the owner %d:%d", desc, e.Uid, e.Gid), desc)
+				}
+				fs.PlantFile("/d/victim", []byte("x"), 0666, 77, 88)
+				rec.Distinct(fmt.Sprintf("connection|order=%d|%s|call=%d|root=%v", oi, squash, i, euid == 0))
+			}
+			p.close()
+			srv.Close()
+		}
+	}
 }
